@@ -262,7 +262,9 @@ closed:
 		err = clnt.err
 	}
 	clnt.Unlock()
-	for ; r != nil; r = r.next {
+	var next *Req
+	for ; r != nil; r = next {
+		next = r.next // the woken caller recycles r (ReqFree clears r.next)
 		r.Err = err
 		verifCPoint("crecv_fanout", clnt, r)
 		if r.Done != nil {
